@@ -276,6 +276,18 @@ func FamilyShape(thorough bool, seed int64) []*Conv {
 	} {
 		out = append(out, shapeConv("shape", shape{Src: em.src, Tgt: em.tgt, Name: em.name, Decls: []string{"type PFXBase struct {\n\tV int\n\tL []int\n}\ntype PFXEs struct {\n\t*PFXBase\n\tN int\n}\ntype PFXEt struct {\n\t*PFXBase\n\tN int\n}"}}, nextFormat(), nil, nil))
 	}
+	// three container levels in one method: nil / non-nil empty at the middle level, nested maps whose inner keys are
+	// converted (the outer map empty but not nil)
+	for _, tl := range []struct{ name, src, tgt string }{
+		{"three_levels_slice_slice_ptr", "[][]*PFXTa", "[][]*PFXTb"},
+		{"three_levels_map_map_convkey", "map[string]map[PFXTk]int", "map[string]map[string]int"},
+		{"three_levels_slice_map_slice", "[]map[string][]PFXTa", "[]map[string][]PFXTb"},
+		{"three_levels_field_slice_slice_ptr", "struct{ M [][]*PFXTa; N int }", "struct{ M [][]*PFXTb; N int }"},
+	} {
+		cv := shapeConv("shape", shape{Src: tl.src, Tgt: tl.tgt, Name: tl.name, Decls: []string{"type PFXTa struct{ V int }\ntype PFXTb struct{ V int }\ntype PFXTk string"}}, nextFormat(), nil, nil)
+		cv.Bounds = &Bounds{MaxSlice: 2, MaxMap: 1, RecDepth: 1}
+		out = append(out, cv)
+	}
 	// more nested loops in one method than there are single-letter index names
 	for _, ds := range []struct {
 		name, src string
